@@ -21,6 +21,7 @@ package main
 import (
 	"bufio"
 	"bytes"
+	"context"
 	"crypto/sha1"
 	"encoding/binary"
 	"encoding/hex"
@@ -87,6 +88,8 @@ type (
 		ArrivedEvents   int            `json:"pcap_arrived_events"`
 		KnownPcaps      int            `json:"known_pcaps_at_world_end"`
 		ValidUploads2xx int            `json:"valid_pcap_uploads_2xx"`
+		StreamDownloads int            `json:"stream_downloads"`
+		StreamDown2xx   int            `json:"stream_downloads_2xx"`
 		Notes           []string       `json:"notes"`
 		HarnessError    string         `json:"harness_error"`
 	}
@@ -342,7 +345,9 @@ func c19NewWorld(t *testing.T) *c19World {
 	// lengths can reach, in a sibling directory and in the index directory
 	for _, rel := range []string{"canary.pcap", "o1/canary.pcap", "o1/o2/canary.pcap", "o1/o2/o3/canary.pcap",
 		w.baseRel + "/canary.pcap", w.baseRel + "/other/canary.pcap", w.baseRel + "/index/canary.pcap", w.baseRel + "/exists.pcap"} {
-		if err := os.WriteFile(filepath.Join(scratch, rel), []byte(c19CanaryMark+rel+"\n"), 0o644); err != nil {
+		// a canary is a valid capture whose only packet carries the mark: a route that opens capture files by
+		// name (the download of one stream's packets) returns the mark when it is led to a canary
+		if err := os.WriteFile(filepath.Join(scratch, rel), c19Pcap(60001+len(w.canaries), c19CanaryMark+rel), 0o644); err != nil {
 			c19Fatal(t, "%v", err)
 		}
 		w.canaries[rel] = true
@@ -909,6 +914,9 @@ func (r *c19Run) group(w *c19World, worldIdx, groupIdx int, spec string) {
 				if arrived != 1 || len(names) != 1 || (len(want) == 1 && names[0] != want[0]) {
 					r.report("import.not-exactly-once", key, fmt.Sprintf("%s answered %d; expected the stored capture to be queued for import exactly once, observed %d ImportPcaps calls and processed queue entries %q", line, resp.Status, arrived, c19Rel(w, names)), replay)
 				}
+				if valid && len(created) == 1 && !r.tainted {
+					r.streamDownloads(w, filepath.Base(created[0]), body, key, line, replay)
+				}
 			} else {
 				if len(created) != 0 {
 					effect = "left-file"
@@ -927,6 +935,61 @@ func (r *c19Run) group(w *c19World, worldIdx, groupIdx int, spec string) {
 		}
 		if r.tainted {
 			return
+		}
+	}
+}
+
+// streamDownloads asks for the packets of every stream that the capture just stored under name produced
+// (GET /api/download/<id>.pcap).  That route opens the capture files the index names - the names uploads were stored
+// under - so it is a second way from a request path to a file name.  The answer must be the uploaded packet and
+// nothing from outside the capture directory, and the request must not change the tree.
+func (r *c19Run) streamDownloads(w *c19World, name string, uploaded []byte, key, line string, replay map[string]any) {
+	var ids []uint64
+	v := w.mgr.GetView()
+	err := v.AllStreams(context.Background(), func(sc manager.StreamContext) error {
+		pk, err := sc.Stream().Packets()
+		if err != nil {
+			return err
+		}
+		for _, p := range pk {
+			if p.PcapFilename == name {
+				ids = append(ids, sc.Stream().ID())
+				break
+			}
+		}
+		return nil
+	})
+	v.Release()
+	if err != nil {
+		r.report("streamdownload.unreadable", key, fmt.Sprintf("after %s: enumerating the streams failed: %v", line, err), replay)
+		return
+	}
+	frame := uploaded[24+16:]
+	for _, id := range ids {
+		pre := w.snap
+		dl := fmt.Sprintf("GET /api/download/%d.pcap", id)
+		resp := w.do(c19Raw("GET", fmt.Sprintf("/api/download/%d.pcap", id), 0), nil, dl)
+		w.quiesce()
+		post := w.snapshot()
+		w.snap = post
+		r.res.Requests++
+		r.res.StreamDownloads++
+		k := key + " then " + dl
+		if created := r.fsCheck(w, pre, post, w.diff(pre, post), k, dl, resp.Status, replay); len(created) != 0 {
+			r.report("download.created-file", k, fmt.Sprintf("%s (status %d) created %q", dl, resp.Status, created), replay)
+		}
+		if bytes.Contains(resp.Body, []byte(c19CanaryMark)) {
+			r.report("download.outside-content", k, fmt.Sprintf("after %s: %s (the stream of the capture stored as %q) answered %d with the content of a file outside the capture directory: %s", line, dl, name, resp.Status, c19Show(resp.Body)), replay)
+			continue
+		}
+		if resp.Status >= 200 && resp.Status <= 299 {
+			r.res.StreamDown2xx++
+			if !bytes.Contains(resp.Body, frame) {
+				r.report("streamdownload.wrong-content", k, fmt.Sprintf("after %s: %s answered %d with %s, which does not hold the uploaded packet", line, dl, resp.Status, c19Show(resp.Body)), replay)
+			}
+		}
+		if names, arrived := w.takeObservations(); len(names) != 0 || arrived != 0 {
+			r.report("import.unexpected", k, fmt.Sprintf("%s (status %d) queued %q for import (%d ImportPcaps calls)", dl, resp.Status, names, arrived), replay)
 		}
 	}
 }
